@@ -171,9 +171,13 @@ type vC12Gen struct {
 var vC12Names = []string{"cam1", "cam2", "a/b", "~^live/(.+)$", "all_others", "cam1", "cam2", "live/x", "all", "~^.*$",
 	"bad name!", "~[", "cam3", "/lead", "x"}
 
-func (g *vC12Gen) name() string {
-	if g.r.Chance(1, 40) && !g.http {
+// existing: the names configured right now (sorted); kinds that need an existing path pick one of them half of the time
+func (g *vC12Gen) name(kind string, existing []string) string {
+	if g.r.Chance(1, 40) {
 		return ""
+	}
+	if len(existing) > 0 && kind != "add" && g.r.Chance(1, 2) {
+		return vPick(g.r, existing)
 	}
 	return vPick(g.r, vC12Names)
 }
@@ -197,8 +201,7 @@ func (g *vC12Gen) pathField() (vC12KV, bool) {
 			{"source", `"invalid://x"`}, {"source", `"rtsp://"`}, {"sourceOnDemandStartTimeout", `"abc"`},
 			{"recordFormat", `"avi"`}, {"unknownField", `1`}, {"maxReaders", `"many"`}, {"record", `"yes"`},
 			{"srtReadPassphrase", `"short"`}, {"rtspTransport", `"carrier-pigeon"`}, {"recordPartDuration", `"-"`},
-			{"rtspRangeType", `"bogus"`}, {"Source", `"publisher"`}, {"fallback", `"not a path or url"`},
-			{"recordPath", `"norecpath"`}, {"source", `17`},
+			{"rtspRangeType", `"bogus"`}, {"Source", `"publisher"`}, {"recordPath", `"norecpath"`}, {"source", `17`},
 		}), true
 	}
 	return vPick(r, []vC12KV{
@@ -213,7 +216,7 @@ func (g *vC12Gen) pathField() (vC12KV, bool) {
 		{"rtspTransport", vPick(r, []string{`"udp"`, `"tcp"`, `"automatic"`, `"multicast"`})}, {"rtspAnyPort", b()},
 		{"rtspRangeType", vPick(r, []string{`"clock"`, `"npt"`, `"smpte"`, `""`})},
 		{"rtspRangeStart", vPick(r, []string{`"20230812T120000Z"`, `"130s"`, `""`})},
-		{"fallback", vPick(r, []string{`"/other"`, `"rtsp://127.0.0.1:9/f"`, `""`})}, {"playback", b()},
+		{"fallback", vPick(r, []string{`"/other"`, `"rtsp://127.0.0.1:9/f"`, `""`, `"not a path or url"`})}, {"playback", b()},
 		{"runOnDemand", vPick(r, []string{`"true"`, `""`})}, {"runOnDemandRestart", b()}, {"runOnDemandStartTimeout", dur()},
 		{"whepBearerToken", `"tok"`}, {"useAbsoluteTimestamp", b()}, {"rtspUDPReadBufferSize", fmt.Sprint(2048 * (1 + r.Intn(3)))},
 		{"rtpSDP", `"v=0"`}, {"runOnRead", `"true"`}, {"runOnReadRestart", b()}, {"name", `"renamed"`},
@@ -263,7 +266,10 @@ func (g *vC12Gen) globalField() (vC12KV, bool) {
 func (g *vC12Gen) body(global bool) (string, bool) {
 	r := g.r
 	if r.Chance(1, 40) {
-		return vPick(r, []string{`{`, `[]`, `"x"`, ``, `{"source":}`, `null`, `{"a":1}{"b":2}`}), true
+		return vPick(r, []string{`{`, `[]`, `"x"`, ``, `{"source":}`, `{"a":1}{"b":2}`, `{"source":"publisher",}`}), true
+	}
+	if r.Chance(1, 60) {
+		return "null", false // decodes to a request without fields
 	}
 	nf := []int{0, 1, 1, 1, 2, 2, 3, 4}[r.Intn(8)]
 	var parts []string
@@ -594,12 +600,20 @@ func TestVerifC12(t *testing.T) {
 			}
 			mustReject := false
 			if op.kind != "global" && op.kind != "defaults" {
-				op.name = g.name()
+				existing := make([]string, 0, len(prev.cells))
+				for nm := range prev.cells {
+					existing = append(existing, nm)
+				}
+				sort.Strings(existing)
+				op.name = g.name(op.kind, existing)
 			}
 			if op.kind != "delete" {
 				op.body, mustReject = g.body(op.kind == "global")
 			}
 			fields, decOK := vC12Decode(op)
+			if op.kind == "defaults" && decOK && len(prev.cells) == 0 {
+				mustReject = false // path defaults are validated through the paths only
+			}
 			nameOK := !(useHTTP && op.name == "" && op.kind != "global" && op.kind != "defaults")
 
 			var outcome, msg string
@@ -618,10 +632,10 @@ func TestVerifC12(t *testing.T) {
 				t.Fatalf("history %d step %d read: %v", h, s, err)
 			}
 			// a later read, to tell a stale first read from a wrong final state (reported, not used for the verdict)
-			if outcome == vC12OK {
+			if outcome == vC12OK && s%3 == 0 {
+				snap := tg.p.APIConfigSnapshot()
 				time.Sleep(2 * time.Millisecond)
-				later, err2 := tg.read()
-				if err2 == nil && !reflect.DeepEqual(later, cur) {
+				if tg.p.APIConfigSnapshot() != snap {
 					staleReads++
 				}
 			}
@@ -688,5 +702,5 @@ func TestVerifC12(t *testing.T) {
 			map[string]any{"mode": class, "initialPaths": initPathsD, "steps": stepDescs}, class, nOK > 0 && nRej > 0)
 	}
 	out.extra["steps"] = stepClasses
-	out.extra["reads_that_changed_within_2ms_of_a_successful_edit"] = staleReads
+	out.extra["snapshots_replaced_within_2ms_after_the_answer_to_an_accepted_edit"] = staleReads
 }
